@@ -244,6 +244,8 @@ class Harness:
     max_validations = 12
     tol = 1e-9
     needs_real_run = True          # False: skip validation (no concrete counterpart)
+    validate_compare = True        # False: outputs depend on uninterpreted functions (exp, tanh): the model's
+                                   # function values are arbitrary, so only executability of the real run is validated
 
     def __init__(self, **params):
         self.params = params
@@ -473,7 +475,7 @@ def run_symbolic(h, budget_s=300.0, max_paths=100000, validate=True):
         finally:
             sym.set_ctx(saved)
             compat.symbolic_mode(True)
-        mism = compare_struct(sym_out, real_out, 1e-7)
+        mism = compare_struct(sym_out, real_out, 1e-7) if h.validate_compare else []
         if mism:
             raise ValidationMismatch("symbolic outputs differ from the real run on the path model: %s (inputs %s)"
                                      % (mism[:3], jsonable(vals)))
